@@ -128,6 +128,16 @@ class Instance:
         if f is not None and Interp.current is not None:
             r = Interp.current.call_function(f, [self], {}, None)
             return hash(r)
+        cls = self.cls
+        if f is None and getattr(cls, 'record_fields', None) is not None and not getattr(cls, 'is_namedtuple', False):
+            # dataclass: eq=True (the default) with frozen=True (or unsafe_hash=True) generates __hash__ from the compared fields;
+            # eq=True without frozen sets __hash__ to None (unhashable); eq=False keeps identity hashing
+            if getattr(cls, 'dataclass_eq', True) and self._dunder('__eq__') is None:
+                if cls.frozen or getattr(cls, 'dataclass_unsafe_hash', False):
+                    return hash(tuple(_hashable(self.attrs.get(n)) for n in compare_fields(cls)))
+                raise TypeError(f"unhashable type: '{cls.name}'")
+        if f is None and self.tuple_items() is not None:
+            return hash(tuple(_hashable(x) for x in self.tuple_items()))
         return id(self)
 
     def __eq__(self, other):
@@ -144,6 +154,11 @@ class Instance:
             if isinstance(r, bool):
                 return r
             return False
+        if f is None and getattr(self.cls, 'record_fields', None) is not None and getattr(self.cls, 'dataclass_eq', True) and not getattr(self.cls, 'is_namedtuple', False):
+            # dataclass equality (eq=True is the default): same class, compared fields equal - also when Python containers (set, dict keys) compare
+            if not (isinstance(other, Instance) and other.cls is self.cls):
+                return False
+            return all(self.attrs.get(n) == other.attrs.get(n) for n in compare_fields(self.cls))
         return False
 
     def __repr__(self):
@@ -207,7 +222,7 @@ EXC_PARENT = {
     'ArithmeticError': 'Exception', 'Exception': 'BaseException', 'NumbaTypeError': 'TypeError',
     'OverflowError': 'ArithmeticError', 'StopIteration': 'Exception', 'OSError': 'Exception',
     'FileNotFoundError': 'OSError', 'UnicodeDecodeError': 'ValueError',
-    'OutOfBoundsRead': 'BaseException', 'ParseException': 'Exception', 'ParseSyntaxException': 'ParseException', 'DeprecationWarning': 'Warning', 'Warning': 'Exception', 'KeyboardInterrupt': 'BaseException',
+    'FrozenInstanceError': 'AttributeError', 'OutOfBoundsRead': 'BaseException', 'ParseException': 'Exception', 'ParseSyntaxException': 'ParseException', 'DeprecationWarning': 'Warning', 'Warning': 'Exception', 'KeyboardInterrupt': 'BaseException',
 }
 
 
@@ -485,6 +500,11 @@ class Interp:
             if d.path == 'builtins.property':
                 val.is_property = True
                 return val
+            if d.path == 'functools.cached_property':
+                # a property whose first result is kept in the instance dictionary under the same name
+                val.is_property = True
+                val.cached = True
+                return val
             if d.path == 'builtins.staticmethod':
                 val.is_static = True
                 return val
@@ -532,6 +552,8 @@ class Interp:
                             cls.frozen = bool(self.eval(kw.value, frame))
                         elif kw.arg == 'eq':
                             cls.dataclass_eq = bool(self.eval(kw.value, frame))
+                        elif kw.arg == 'unsafe_hash':
+                            cls.dataclass_unsafe_hash = bool(self.eval(kw.value, frame))
                         elif kw.arg not in ('repr', 'init'):
                             self.fail(f'dataclass({kw.arg}=...) not modelled', dec)
             else:
@@ -730,6 +752,8 @@ class Interp:
 
     def st_With(self, st, frame):
         suppressed = []
+        if any(isinstance(self._peek_instance_cm(item, frame), Instance) for item in st.items):
+            return self.with_instances(st, frame, 0)
         for item in st.items:
             v = self.eval(item.context_expr, frame)
             entered = self.models.enter_context(self, v, st)
@@ -752,6 +776,48 @@ class Interp:
                     self.event('caught', exc=r.exc.tname, handler=st, node=r.node)
                     return
             raise
+
+    def _peek_instance_cm(self, item, frame):
+        """is the context expression a plain name bound to an instance of a repository class with __enter__ / __exit__? (names only: nothing is
+        evaluated twice)"""
+        e = item.context_expr
+        if isinstance(e, ast.Name):
+            try:
+                v = frame.lookup(e.id)
+            except KeyError:
+                v = frame.module.globals.get(e.id)
+            if isinstance(v, Instance) and v._dunder('__enter__') is not None and v._dunder('__exit__') is not None:
+                return v
+        return None
+
+    def with_instances(self, st, frame, i):
+        """with-statement over context managers that are instances of repository classes: __enter__, the body, __exit__(type, value, tb) on the
+        way out - a true result swallows the exception (nested like the statement nests its items)"""
+        if i == len(st.items):
+            return self.exec_block(st.body, frame)
+        item = st.items[i]
+        v = self.eval(item.context_expr, frame)
+        if not (isinstance(v, Instance) and v._dunder('__enter__') is not None and v._dunder('__exit__') is not None):
+            self.fail('with-statement mixing repository context managers with others not modelled', st)
+        entered = self.call_function(v._dunder('__enter__'), [v], {}, st)
+        if item.optional_vars is not None:
+            self.assign(item.optional_vars, entered, frame, st)
+        try:
+            self.with_instances(st, frame, i + 1)
+        except AbsRaise as r:
+            et = getattr(r.exc, 'cls', None) or ExcType(r.exc.tname)
+            res = self.call_function(v._dunder('__exit__'), [v, et, r.exc, None], {}, st)
+            t = self.truth(res, st)
+            if t is True:
+                self.event('caught', exc=r.exc.tname, handler=st, node=r.node)
+                return
+            if t is not False:
+                self.fail('__exit__ returns an undecided value', st)
+            raise
+        except (_Return, _Break, _Continue):
+            self.call_function(v._dunder('__exit__'), [v, None, None, None], {}, st)
+            raise
+        self.call_function(v._dunder('__exit__'), [v, None, None, None], {}, st)
 
     def st_Match(self, st, frame):
         subject = self.eval(st.subject, frame)
@@ -1036,7 +1102,10 @@ class Interp:
                 raise AbsRaise(ExcVal('AttributeError', (f'{obj.cls.name} has no attribute {name}',)), node)
             if isinstance(v, FuncVal):
                 if v.is_property:
-                    return self.call_function(v, [obj], {}, node)
+                    r = self.call_function(v, [obj], {}, node)
+                    if getattr(v, 'cached', False):
+                        obj.attrs[name] = r
+                    return r
                 if v.is_static:
                     return v
                 if v.is_classmethod:
@@ -1121,7 +1190,7 @@ class Interp:
             return
         if isinstance(obj, Instance):
             if obj.cls.frozen and not getattr(obj, '_constructing', False):
-                raise AbsRaise(ExcVal('AttributeError', ('frozen instance',)), node)
+                raise AbsRaise(ExcVal('FrozenInstanceError', (f"cannot assign to field '{name}'",)), node)
             try:
                 cv = obj.cls.lookup(name)
             except KeyError:
@@ -1740,6 +1809,28 @@ class Interp:
                           reversed, filter)):
             return list(v)
         return self.models.iterate(self, v, node)
+
+
+def _hashable(x):
+    if isinstance(x, list):
+        raise TypeError("unhashable type: 'list'")
+    if isinstance(x, dict):
+        raise TypeError("unhashable type: 'dict'")
+    return x
+
+
+def compare_fields(cls):
+    """names of the dataclass fields that take part in == / hash (field(compare=False) is left out)"""
+    out = []
+    for n, d in cls.record_fields:
+        keep = True
+        if isinstance(d, tuple) and d[:1] == ('expr',) and isinstance(d[1], ast.Call):
+            for kw in d[1].keywords:
+                if kw.arg == 'compare' and isinstance(kw.value, ast.Constant) and kw.value.value is False:
+                    keep = False
+        if keep:
+            out.append(n)
+    return out
 
 
 class EnumInt(int):
